@@ -69,7 +69,14 @@ def b_level0(ch):
     # the association must not depend on the other output switches
     d.options = ch.choose('options', [[], ['--skip-compositions'], ['--skip-boundary-conditions'],
                                       ['--skip-compositions', '--skip-boundary-conditions']])
-    return d.finish()
+    d.finish()
+    # the material number is an integer field: 00 / +0 is the void, 01 is material 1
+    sp = ch.choose('matnum-spelling', ['plain', 'leading-zero', 'sign'])
+    if sp != 'plain':
+        import re
+        pre = '0' if sp == 'leading-zero' else '+'
+        d.cells = [re.sub(r'^(\d+) (\d+) ', lambda m: '%s %s%s ' % (m.group(1), pre, m.group(2)), c) for c in d.cells]
+    return d
 
 
 def b_tree(ch):
